@@ -55,8 +55,9 @@ fn comp() -> BoxedStrategy<Comp> {
 }
 
 pub fn grammar_case() -> BoxedStrategy<OpCase> {
-    (comp(), comp(), any::<bool>(), 0u8..3, any::<bool>(), proptest::collection::vec((-3.0..3.0f64, -3.0..3.0f64), 5))
-        .prop_map(|(a, b, parens, comma_spaces, lead_space, points)| OpCase { a, b, parens, comma_spaces, lead_space, points })
+    let long_run = prop_oneof![30 => Just(0u16), 1 => 1u16..40, 1 => 200u16..700];
+    (comp(), comp(), any::<bool>(), 0u16..3, any::<bool>(), proptest::collection::vec((-3.0..3.0f64, -3.0..3.0f64), 5), long_run)
+        .prop_map(|(a, b, parens, comma_spaces, lead_space, points, long_run)| OpCase { a, b, parens, comma_spaces, long_run, lead_space, points })
         .boxed()
 }
 
@@ -93,7 +94,16 @@ fn arbitrary_strat(_: &Ctx) -> BoxedStrategy<StrCase> {
     let a2 = alphabet.clone();
     prop_oneof![
         2 => any::<String>(),
-        4 => proptest::collection::vec(select(alphabet), 0..40).prop_map(|v| v.into_iter().collect::<String>()),
+        4 => proptest::collection::vec(select(alphabet.clone()), 0..40).prop_map(|v| v.into_iter().collect::<String>()),
+        // long strings: a long run of one accepted character (blank, digit, letter, sign) inside a short random string
+        1 => (proptest::collection::vec(select(alphabet.clone()), 0..12), select(alphabet), 100usize..1200, any::<u16>()).prop_map(|(v, ch, n, pos)| {
+            let mut v = v;
+            let p = idx(pos, v.len() + 1).min(v.len());
+            for _ in 0..n {
+                v.insert(p, ch);
+            }
+            v.into_iter().collect::<String>()
+        }),
         4 => (grammar_case(), any::<u16>(), 0u8..4, select(a2)).prop_map(|(g, pos, kind, ch)| {
             let s: Vec<char> = render(&g).chars().collect();
             let mut v = s.clone();
@@ -210,13 +220,13 @@ fn exhaustive_components(ctx: &Ctx, ev: &mut crate::evidence::Evidence) {
                                 sp[g + 1] = (spmask >> (2 * g) & 1 == 1, spmask >> (2 * g + 1) & 1 == 1);
                             }
                             for parens in [false, true].iter() {
-                                for comma_spaces in 0u8..3 {
+                                for comma_spaces in 0u16..3 {
                                     for first in [true, false].iter() {
                                         let comp = Comp { terms: terms.clone(), lead_plus: *lead_plus, sp: sp.clone() };
                                         let case = if *first {
-                                            OpCase { a: comp, b: other.clone(), parens: *parens, comma_spaces, lead_space: false, points: points.clone() }
+                                            OpCase { a: comp, b: other.clone(), parens: *parens, comma_spaces, long_run: 0, lead_space: false, points: points.clone() }
                                         } else {
-                                            OpCase { a: other.clone(), b: comp, parens: *parens, comma_spaces, lead_space: false, points: points.clone() }
+                                            OpCase { a: other.clone(), b: comp, parens: *parens, comma_spaces, long_run: 0, lead_space: false, points: points.clone() }
                                         };
                                         n += 1;
                                         if let Err(msg) = check_grammar_string(&case) {
@@ -246,7 +256,7 @@ fn exhaustive_components(ctx: &Ctx, ev: &mut crate::evidence::Evidence) {
         m.nontrivial.insert(k);
     }
     *m.classes.entry("strings".to_string()).or_insert(0) += done;
-    m.samples.entry("exhaustive".to_string()).or_insert_with(Vec::new).push(serde_json::json!({"component_asts": n_asts, "strings_checked": done, "example": render(&OpCase { a: Comp { terms: asts[n_asts - 1].clone(), lead_plus: true, sp: vec![(true, true); 3] }, b: other.clone(), parens: true, comma_spaces: 1, lead_space: false, points: vec![] })}));
+    m.samples.entry("exhaustive".to_string()).or_insert_with(Vec::new).push(serde_json::json!({"component_asts": n_asts, "strings_checked": done, "example": render(&OpCase { a: Comp { terms: asts[n_asts - 1].clone(), lead_plus: true, sp: vec![(true, true); 3] }, b: other.clone(), parens: true, comma_spaces: 1, long_run: 0, lead_space: false, points: vec![] })}));
     ev.absorb_part("exhaustive-components", &m);
     ev.extra.insert("exhaustive_components".to_string(), serde_json::json!({"component_asts": n_asts, "strings_checked": done, "complete": failure.lock().unwrap().is_none()}));
     if let Some((case, msg)) = failure.into_inner().unwrap() {
